@@ -692,7 +692,12 @@ class VCGen:
                 raise Unsupported(f'if-expression branches {ta} / {tb}')
         return If(c, a, b), ta
 
-    def mk_tuple(s, vs):
+    def mk_tuple(s, vs, st=None, line=0):
+        if len(vs) == 2 and vs[1][1].k == 'opt' and vs[1][1].a[0] == INT and st is not None and not s.specmode:
+            # a (label, target) tuple whose target is an optional int: the typed model needs the int; (x, None) is outside it
+            ov, ot = vs[1]
+            s.safe(st, 'tuple-target-not-None', Not(Ty.S(ot).isnone(ov)), line)
+            vs = [vs[0], (Ty.S(ot).val(ov), INT)]
         if len(vs) == 2 and s.cur.get('tuple2', 'trans') == 'trans' and vs[1][1] == INT and vs[0][1] in (STR, REAL, INT, BOOL):
             (x, tx), (y, _) = vs
             if tx == STR:
@@ -702,7 +707,7 @@ class VCGen:
         return tup_mk(t, [v for v, _ in vs]), t
 
     def ev_Tuple(s, e, st):
-        return s.mk_tuple([s.ev(x, st) for x in e.elts])
+        return s.mk_tuple([s.ev(x, st) for x in e.elts], st, getattr(e, 'lineno', 0))
 
     def ev_List(s, e, st):
         vs = [s.ev(x, st) for x in e.elts]
